@@ -114,3 +114,52 @@ def path (l : Loc) : Sx := .list (l.pos.map (fun i => .int (Int.ofNat i)))
 
 end Codec
 end SoupVerif
+
+namespace SoupVerif
+namespace Codec
+open Sx
+
+def encItem : SetItem → Sx
+  | .ch c => .list [.int 0, ofNat c]
+  | .range lo hi => .list [.int 1, ofNat lo, ofNat hi]
+  | .cat k => .list [.int 2, .int (match k with
+      | .space => 0 | .notSpace => 1 | .digit => 2 | .notDigit => 3 | .word => 4 | .notWord => 5)]
+
+partial def encRx : Rx → Sx
+  | .lit c ic => .list [.int 0, ofNat c, ofBool ic]
+  | .notLit c ic => .list [.int 1, ofNat c, ofBool ic]
+  | .any d => .list [.int 2, ofBool d]
+  | .set neg items ic => .list [.int 3, ofBool neg, .list (items.map encItem), ofBool ic]
+  | .seq rs => .list [.int 4, .list (rs.map encRx)]
+  | .alt rs => .list [.int 5, .list (rs.map encRx)]
+  | .group idx r => .list [.int 6, ofNat idx, encRx r]
+  | .rep mn mx g r => .list [.int 7, ofNat mn, ofOpt ofNat mx, ofBool g, encRx r]
+  | .bos => .list [.int 8]
+  | .eol => .list [.int 9]
+  | .eos => .list [.int 10]
+  | .look a n r => .list [.int 11, ofBool a, ofBool n, encRx r]
+
+def encRel : Rel → Sx
+  | .none => .int 0 | .desc => .int 1 | .child => .int 2 | .sib => .int 3 | .adj => .int 4
+  | .hasDesc => .int 5 | .hasChild => .int 6 | .hasSib => .int 7 | .hasAdj => .int 8
+
+mutual
+partial def encSelList : SelList → Sx
+  | .mk sels isNot isHtml => .list [.list (sels.map encSel), ofBool isNot, ofBool isHtml]
+partial def encSel : Sel → Sx
+  | .null => .list [.int 0]
+  | .mk tag ids classes attrs nth subs relation relType contains lang flags =>
+    .list [.int 1,
+      ofOpt (fun (t : SelTag) => .list [ofStr t.name, ofOpt ofStr t.pfx]) tag,
+      ofList ofStr ids, ofList ofStr classes,
+      ofList (fun (a : AttrSel) => .list [ofStr a.attrName, ofStr a.pfx, ofOpt encRx a.pattern, ofOpt encRx a.xmlTypePattern]) attrs,
+      .list (nth.map encNth), .list (subs.map encSelList), encSelList relation, encRel relType,
+      ofList (fun (c : ContainsSel) => .list [ofList ofStr c.text, ofBool c.own]) contains,
+      ofList (fun (l : LangSel) => .list [ofList ofStr l.languages]) lang,
+      ofNat flags]
+partial def encNth : NthSel → Sx
+  | .mk a n b ofType last sels => .list [.int a, ofBool n, .int b, ofBool ofType, ofBool last, encSelList sels]
+end
+
+end Codec
+end SoupVerif
